@@ -128,20 +128,29 @@ CHECKS = {
         note="The exit table is syntactic (text walker over parser.cpp); the setter shape is modelled and tied by the "
              "step-by-step correspondence."),
     "C10": dict(
-        technique="Lean 4 proof: IPv4 round trip for all 2^32 addresses and IPv6 round trip for all 2^128 addresses "
-                  "(induction over the serializer/parser loops), host-parser well-formedness, host code-point tables "
-                  "regenerated from the source; Spec host parsers vs implementation on host-centred cases",
-        text="Lean 4: Spec/Host.lean transcribes the IPv4/IPv6/host parsers and serializers over Nat. Theorems: "
-             "ipv4Parse(ipv4Serialize a)=a for every a<2^32, ipv6Parse(ipv6Serialize a)=a for every eight 16-bit pieces "
-             "(any position/length of the compressed zero run; also through the bracketed host parser), the forbidden "
-             "host/domain code-point tables equal the Standard's sets, serialized addresses end in a number, parsed hosts are "
-             "well-formed/non-empty; decided boundary tables for number forms, IPv6 compression and DNS length. The "
-             "implementation is compared with the Spec on href, host, port, host kind and has_valid_domain for hosts "
-             "parsed, inherited from a base and replaced by setters (including IPv4 spellings disguised by percent-escapes and "
-             "full-width forms, and an AVX-512 build pass), and every produced IP href is re-parsed.",
-        design_ref="DESIGN.md §5 C10",
-        note="parse_ipv4/parse_ipv6 C++ kernels and the C++ serialisers are compared with the Spec, not modelled; the "
-             "round-trip theorems are about the Spec (validated transcription of the Standard)."),
+        technique="Lean 4 proof: the IP address kernels of the implementation (models of is_ipv4, parse_ipv4 with "
+                  "parse_ipv4_number, serializers::ipv4 and ::ipv6) equal the Standard's definitions on every input; IPv4 round "
+                  "trip for all 2^32 and IPv6 round trip for all 2^128 addresses; host-parser well-formedness; host code-point "
+                  "tables regenerated from the source; kernel models tied to the code call by call; Spec host parsers vs "
+                  "implementation on host-centred cases",
+        text="Lean 4: Spec/Host.lean transcribes the IPv4/IPv6/host parsers and serializers over Nat. Kernel theorems "
+             "(Model/HostKernels.lean transcribes the C++ statement by statement; url and url_aggregator twins): "
+             "kernel_is_ipv4 - checkers::is_ipv4 = the Standard's ends-in-a-number checker on every lower-case text; "
+             "kernel_parse_ipv4 - parse_ipv4 (number parser with its 32-bit overflow guards, decimal fast path, 'keep the text "
+             "when four pure decimals' shortcut) = Standard IPv4 parser then serializer; kernel_serialize_ipv4 / "
+             "kernel_serialize_ipv6 - the serializers incl. longest-zero-run search and :: placement = the Standard's, for "
+             "every address (the 256 zero patterns are decided, pieces are symbolic); of parse_ipv6 the hex piece reader and "
+             "the final in-place move are proved. Spec theorems: ipv4Parse(ipv4Serialize a)=a for every a<2^32, "
+             "ipv6Parse(ipv6Serialize a)=a for every eight 16-bit pieces, forbidden host/domain tables equal the Standard's "
+             "sets, parsed hosts are well-formed. L1: every kernel is called directly (both twins) and compared with the Lean "
+             "model on generated texts; the implementation is compared with the Spec on href, host, port, host kind and "
+             "has_valid_domain for hosts parsed, inherited and replaced by setters (incl. disguised IPv4 spellings and an "
+             "AVX-512 pass), and every produced IP href is re-parsed.",
+        design_ref="DESIGN.md §5 C10, §11.3",
+        note="parse_ipv6's main loop is modelled and run against the code but its equivalence with the Standard's IPv6 "
+             "parser is not proved (an unfinished proof of the embedded-IPv4 tail is kept in lean/wip, outside the build); "
+             "the AVX-512 kernels are compared with the scalar ones in C18; host-kind truthfulness and domain processing are "
+             "decided by correspondence."),
     "C19": dict(
         technique="Lean 4 proof by case analysis over the Spec parser and induction over setter histories; RecInv "
                   "evaluated on the implementation after every operation",
